@@ -123,6 +123,9 @@ func checkAuthDecodeFresh(r *Report, s *Sem, R string) {
 			if mi, isMI := pr.(*ssa.MakeInterface); isMI {
 				pr = stripConv(mi.X)
 			}
+			if isNilConst(pr) {
+				continue // the not-found leg of a factory switch: the decoder returns before unmarshalling
+			}
 			switch x := pr.(type) {
 			case *ssa.Alloc:
 				// allocated in the decoder
